@@ -308,3 +308,296 @@ mod gv {
         }
     }
 }
+
+// ---------------------------------------------------------------- C01: array (sequence) kernel of the D-Bus serializer
+//
+// Drives the real `dbus::Serializer` through serde's `Serializer::serialize_seq` / `SerializeSeq` API with a
+// statically known element type, symbolic message offset, byte order, element count (0..=2) and element values,
+// and compares all bytes with a reference layout computed from the spec: 4-aligned u32 byte length (excluding the
+// padding that follows it), padding to the element alignment (present even when empty), then the elements.
+mod seq_kernel {
+    use super::no_format;
+    use crate::dbus::Serializer as DBusSerializer;
+    use crate::ser::FdList;
+    use crate::serialized::Context;
+    use crate::{Endian, Signature};
+    use serde::ser::{SerializeSeq, Serializer as _};
+    use std::io::Cursor;
+
+    fn pad_to(abs: usize, align: usize) -> usize {
+        let r = abs % align;
+        if r == 0 {
+            0
+        } else {
+            align - r
+        }
+    }
+
+    fn put(buf: &mut [u8; 48], at: usize, v: u64, n: usize, be: bool) {
+        let mut i = 0;
+        while i < n {
+            let shift = if be { 8 * (n - 1 - i) } else { 8 * i };
+            buf[at + i] = (v >> shift) as u8;
+            i += 1;
+        }
+    }
+
+    fn same48(a: &[u8; 48], b: &[u8; 48]) -> bool {
+        let f = |x: &[u8; 48], o: usize| {
+            u64::from_le_bytes([x[o], x[o + 1], x[o + 2], x[o + 3], x[o + 4], x[o + 5], x[o + 6], x[o + 7]])
+        };
+        f(a, 0) == f(b, 0)
+            && f(a, 8) == f(b, 8)
+            && f(a, 16) == f(b, 16)
+            && f(a, 24) == f(b, 24)
+            && f(a, 32) == f(b, 32)
+            && f(a, 40) == f(b, 40)
+    }
+
+    macro_rules! seq_kernel {
+        ($h:ident, $hb:ident, $hc:ident, $hd:ident, $ty:ty, $esz:expr, $sig:expr, |$v:ident| $as64:expr) => {
+            #[kani::proof]
+            #[kani::unwind(9)]
+            #[kani::stub(alloc::fmt::format, no_format)]
+            fn $h() {
+                let pos: usize = kani::any();
+                kani::assume(pos < 8);
+                let be: bool = kani::any();
+                let k: usize = kani::any();
+                kani::assume(k <= 1);
+                $hb(pos, be, k);
+            }
+            #[kani::proof]
+            #[kani::unwind(9)]
+            #[kani::stub(alloc::fmt::format, no_format)]
+            fn $hc() {
+                $hb(0, false, 1);
+            }
+            #[kani::proof]
+            #[kani::unwind(9)]
+            #[kani::stub(alloc::fmt::format, no_format)]
+            fn $hd() {
+                let pos: usize = kani::any();
+                kani::assume(pos < 8);
+                $hb(pos, false, 1);
+            }
+            fn $hb(pos: usize, be: bool, k: usize) {
+                static SIG: Signature = Signature::static_array(&$sig);
+                let vals: [$ty; 1] = kani::any();
+                let ctxt = Context::new_dbus(if be { Endian::Big } else { Endian::Little }, pos);
+                let mut buf = [0u8; 48];
+                let mut cur = Cursor::new(&mut buf[..]);
+                let mut fds = FdList::Number(0);
+                let mut ok = true;
+                let written;
+                {
+                    let mut ser = match DBusSerializer::new(&SIG, &mut cur, &mut fds, ctxt) {
+                        Ok(s) => s,
+                        Err(e) => {
+                            core::mem::forget(e);
+                            panic!("serializer construction failed")
+                        }
+                    };
+                    match (&mut ser).serialize_seq(None) {
+                        Ok(mut seq) => {
+                            let mut i = 0;
+                            while i < k {
+                                let r = seq.serialize_element(&vals[i]);
+                                ok &= r.is_ok();
+                                core::mem::forget(r);
+                                i += 1;
+                            }
+                            let r = seq.end();
+                            ok &= r.is_ok();
+                            core::mem::forget(r);
+                        }
+                        Err(e) => {
+                            core::mem::forget(e);
+                            ok = false;
+                        }
+                    }
+                    written = ser.0.bytes_written;
+                    core::mem::forget(ser);
+                }
+                assert!(ok, "serializing a well-typed array failed");
+                // ---- reference layout
+                let mut m = [0u8; 48];
+                let p0 = pad_to(pos, 4);
+                let len_at = p0;
+                let p1 = pad_to(pos + len_at + 4, $esz);
+                let first = len_at + 4 + p1;
+                let mut at = first;
+                let mut i = 0;
+                while i < k {
+                    let $v = vals[i];
+                    put(&mut m, at, $as64, $esz, be);
+                    at += $esz;
+                    i += 1;
+                }
+                put(&mut m, len_at, (k * $esz) as u64, 4, be);
+                kani::cover!(k == 1 && p1 > 0, "one element after element padding");
+                kani::cover!(k == 0 && p0 == 3, "empty array at odd offset");
+                assert!(written == at, "array: number of bytes written differs from the marshalling rules");
+                assert!(cur.position() as usize == at, "array: writer not left at the end of the array");
+                assert!(same48(&buf, &m), "array: bytes differ from the marshalling rules");
+            }
+        };
+    }
+    seq_kernel!(c01_seq_y, c01_seq_y_body, c01_seq_y_conc, c01_seq_y_pos, u8, 1, Signature::U8, |v| v as u64);
+    seq_kernel!(c01_seq_q, c01_seq_q_body, c01_seq_q_conc, c01_seq_q_pos, u16, 2, Signature::U16, |v| v as u64);
+    seq_kernel!(c01_seq_u, c01_seq_u_body, c01_seq_u_conc, c01_seq_u_pos, u32, 4, Signature::U32, |v| v as u64);
+    seq_kernel!(c01_seq_t, c01_seq_t_body, c01_seq_t_conc, c01_seq_t_pos, u64, 8, Signature::U64, |v| v);
+}
+
+// ---------------------------------------------------------------- C07 (2): depth accounting at the container entry points
+//
+// One inductive step per call site: a live (de)serializer gets an arbitrary depth state `d` (see depths_state), then
+// enters two nested containers of one kind. Expected: the outer entry fails iff `d + 1` exceeds a limit, otherwise the
+// inner entry fails iff `d + 2` does (so the child really observed `d + 1`), with the documented error kind; and
+// after a successful exit the state is `d` again. Histories of any length follow by induction over container entries.
+mod depth_sites {
+    use super::{depths_state, no_format, raw, spec_after, sym_counts, Spec};
+    use crate::dbus::{Deserializer as DBusDeserializer, Serializer as DBusSerializer};
+    use crate::ser::FdList;
+    use crate::serialized::Context;
+    use crate::{Endian, Error, MaxDepthExceeded, Signature};
+    use serde::de::{DeserializeSeed, SeqAccess, Visitor};
+    use serde::{Deserialize, Deserializer as _, Serialize};
+    use std::io::Cursor;
+
+    fn kind_of<T>(r: &crate::Result<T>) -> Spec {
+        match r {
+            Ok(_) => Spec::Ok,
+            Err(Error::MaxDepthExceeded(MaxDepthExceeded::Structure)) => Spec::Structure,
+            Err(Error::MaxDepthExceeded(MaxDepthExceeded::Array)) => Spec::Array,
+            Err(Error::MaxDepthExceeded(MaxDepthExceeded::Container)) => Spec::Container,
+            Err(_) => panic!("container entry failed with a non-depth error"),
+        }
+    }
+
+    /// expected outcome of entering two nested containers (ds, da = per-level increments of structure / array counters)
+    fn expect2(s: u8, a: u8, total: u32, ds: u32, da: u32) -> Spec {
+        let first = spec_after(s as u32 + ds, a as u32 + da, total + 1);
+        if first != Spec::Ok {
+            return first;
+        }
+        spec_after(s as u32 + 2 * ds, a as u32 + 2 * da, total + 2)
+    }
+
+    static U8: Signature = Signature::U8;
+    static S1: Signature = Signature::static_structure(&[&U8]);
+    static S2: Signature = Signature::static_structure(&[&S1]);
+    static A1: Signature = Signature::static_array(&U8);
+    static A2: Signature = Signature::static_array(&A1);
+
+    macro_rules! ser_site {
+        ($h:ident, $sig:expr, $val:expr, $ds:expr, $da:expr) => {
+            #[kani::proof]
+            #[kani::unwind(6)]
+            #[kani::stub(alloc::fmt::format, no_format)]
+            fn $h() {
+                let (s, a, v, m) = sym_counts();
+                let d = depths_state(s, a, v, m);
+                let total = s as u32 + a as u32 + v as u32 + m as u32;
+                let ctxt = Context::new_dbus(Endian::Little, 0);
+                let mut buf = [0u8; 32];
+                let mut cur = Cursor::new(&mut buf[..]);
+                let mut fds = FdList::Number(0);
+                let mut ser = match DBusSerializer::new(&$sig, &mut cur, &mut fds, ctxt) {
+                    Ok(s) => s,
+                    Err(e) => {
+                        core::mem::forget(e);
+                        panic!("serializer construction failed")
+                    }
+                };
+                ser.0.container_depths = d;
+                let val = $val;
+                let r = val.serialize(&mut ser);
+                let got = kind_of(&r);
+                core::mem::forget(r);
+                let want = expect2(s, a, total, $ds, $da);
+                kani::cover!(got == Spec::Ok, "within limits");
+                kani::cover!(got == Spec::Container, "total limit hit");
+                assert!(got == want, "serializer: depth limit not enforced exactly at this container entry");
+                if got == Spec::Ok {
+                    assert!(raw(ser.0.container_depths) == raw(d), "serializer: depth state not restored after the container");
+                }
+                core::mem::forget(ser);
+            }
+        };
+    }
+    ser_site!(c07_site_ser_struct, S2, ((7u8,),), 1, 0);
+    ser_site!(c07_site_ser_array, A2, [[7u8; 1]; 1], 0, 1);
+
+    // ---- minimal Deserialize targets that do not allocate
+    struct Bytes0; // consumes a sequence of u8
+    impl<'de> Deserialize<'de> for Bytes0 {
+        fn deserialize<D: serde::Deserializer<'de>>(d: D) -> Result<Self, D::Error> {
+            struct V;
+            impl<'de> Visitor<'de> for V {
+                type Value = Bytes0;
+                fn expecting(&self, _: &mut std::fmt::Formatter<'_>) -> std::fmt::Result {
+                    Ok(())
+                }
+                fn visit_seq<A: SeqAccess<'de>>(self, mut seq: A) -> Result<Bytes0, A::Error> {
+                    while let Some(_) = seq.next_element::<u8>()? {}
+                    Ok(Bytes0)
+                }
+            }
+            d.deserialize_seq(V)
+        }
+    }
+    struct Nested; // consumes a sequence of Bytes0
+    impl<'de> Deserialize<'de> for Nested {
+        fn deserialize<D: serde::Deserializer<'de>>(d: D) -> Result<Self, D::Error> {
+            struct V;
+            impl<'de> Visitor<'de> for V {
+                type Value = Nested;
+                fn expecting(&self, _: &mut std::fmt::Formatter<'_>) -> std::fmt::Result {
+                    Ok(())
+                }
+                fn visit_seq<A: SeqAccess<'de>>(self, mut seq: A) -> Result<Nested, A::Error> {
+                    while let Some(_) = seq.next_element::<Bytes0>()? {}
+                    Ok(Nested)
+                }
+            }
+            d.deserialize_seq(V)
+        }
+    }
+
+    macro_rules! de_site {
+        ($h:ident, $sig:expr, $bytes:expr, $ds:expr, $da:expr) => {
+            #[kani::proof]
+            #[kani::unwind(6)]
+            #[kani::stub(alloc::fmt::format, no_format)]
+            fn $h() {
+                let (s, a, v, m) = sym_counts();
+                let d = depths_state(s, a, v, m);
+                let total = s as u32 + a as u32 + v as u32 + m as u32;
+                let ctxt = Context::new_dbus(Endian::Little, 0);
+                let bytes = $bytes;
+                let mut de = match DBusDeserializer::<std::os::fd::BorrowedFd<'static>>::new(&bytes[..], None, &$sig, ctxt) {
+                    Ok(d) => d,
+                    Err(e) => {
+                        core::mem::forget(e);
+                        panic!("deserializer construction failed")
+                    }
+                };
+                de.0.container_depths = d;
+                let r = Nested::deserialize(&mut de);
+                let got = kind_of(&r);
+                core::mem::forget(r);
+                let want = expect2(s, a, total, $ds, $da);
+                kani::cover!(got == Spec::Ok, "within limits");
+                kani::cover!(got == Spec::Container, "total limit hit");
+                assert!(got == want, "deserializer: depth limit not enforced exactly at this container entry");
+                if got == Spec::Ok {
+                    assert!(raw(de.0.container_depths) == raw(d), "deserializer: depth state not restored after the container");
+                    assert!(de.0.pos == bytes.len());
+                }
+            }
+        };
+    }
+    de_site!(c07_site_de_struct, S2, [7u8], 1, 0);
+    de_site!(c07_site_de_array, A2, [5u8, 0, 0, 0, 1, 0, 0, 0, 7], 0, 1);
+}
